@@ -247,6 +247,34 @@ def search_fixed(seed, n):
 # ----------------------------------------------------------------------------- C16
 
 
+def _contrib_consistent(e):
+    """None, or how e.calc_chi2_gradient_hessian() differs from the blocks J_i^T Ω J_j / e^T Ω J_i of e.calc_jacobians()"""
+    for k, v in enumerate(e.vertices):
+        v.gradient_index = k
+    J = [np.asarray(j, dtype=np.float64) for j in e.calc_jacobians()]
+    err = np.asarray(e.calc_error(), dtype=np.float64)
+    Om = np.asarray(e.information, dtype=np.float64)
+    _, grads, hess = e.calc_chi2_gradient_hessian()
+    grads, hess = list(grads), list(hess)
+    if len(grads) != len(J):
+        return "number of gradient contributions %d != number of vertices %d" % (len(grads), len(J))
+    for k, (idx, gk) in enumerate(grads):
+        want = err @ Om @ J[k]
+        gk = np.asarray(gk, dtype=np.float64)
+        c = e.vertices[k].pose.COMPACT_DIMENSIONALITY
+        if gk.shape != (c,) or not np.allclose(gk, want, rtol=1e-9, atol=1e-12):
+            return "gradient contribution of vertex %d has shape %s / differs from e^T Ω J_%d (expected shape (%d,))" % (k, gk.shape, k, c)
+    pairs = [(i, j) for i in range(len(J)) for j in range(i, len(J))]
+    if len(hess) != len(pairs):
+        return "number of Hessian contributions %d != %d" % (len(hess), len(pairs))
+    for (i, j), (idx, hij) in zip(pairs, hess):
+        want = J[i].T @ Om @ J[j]
+        hij = np.asarray(hij, dtype=np.float64)
+        if tuple(idx) != (i, j) or hij.shape != want.shape or not np.allclose(hij, want, rtol=1e-9, atol=1e-12):
+            return "Hessian contribution (%d,%d) has shape %s, expected %s = J_i^T Ω J_j" % (i, j, hij.shape, want.shape)
+    return None
+
+
 def search_numjac(seed, n):
     """numerical Jacobians vs analytic ones of the same edge; twin graphs converge to the same optimum"""
     from graphslam.edge.base_edge import BaseEdge
@@ -257,7 +285,30 @@ def search_numjac(seed, n):
     for k in range(n):
         rng = Rng(seed, "c16search|%d" % k)
         g, desc = G.make_graph(rng, noise=rng.choice([0.02, 0.1]), well_posed=True, custom=True, fix="first")
+        if k % 4 == 0:
+            # aliasing: two vertices of an odometry edge hold the same pose object
+            cands = [e for e in g._edges if type(e).__name__ == "EdgeOdometry"]
+            if cands:
+                e0 = rng.choice(cands)
+                e0.vertices[1].pose = e0.vertices[0].pose
+                Jn = BaseEdge.calc_jacobians(e0)
+                Ja = e0.calc_jacobians()
+                ev += 1
+                dev = max(float(np.max(np.abs(np.asarray(a) - np.asarray(b)))) for a, b in zip(Jn, Ja))
+                if not dev <= 1e-4:
+                    return dict(kind="numjac", what="numerical Jacobian wrong when two vertices share one pose object", match="numjac-aliased-poses", deviation=dev, desc=desc), ev, worst
+                continue
         for ei, e in enumerate(g._edges):
+            # the contributions an edge hands to the optimizer are J_i^T Ω J_j / e^T Ω J_i of *its own* Jacobians, block by
+            # block, for every vertex order (custom edges are probed in reversed vertex order too: smaller block first)
+            probes = [e]
+            if type(e).__name__.startswith("Distance") and len(e.vertices) > 1:
+                probes.append(type(e)(list(reversed(e.vertex_ids)), e.information, e.estimate, list(reversed(e.vertices))))
+            for pe in probes:
+                w = _contrib_consistent(pe)
+                ev += 1
+                if w:
+                    return dict(kind="numjac", what=w, match="numjac-contribs", edge=desc["edges"][ei], reversed=pe is not e, desc=desc), ev, worst
             if type(e).__name__ == "DistanceEdge":
                 continue  # no analytic twin on this object (its twin class is checked through the graph twin below)
             Jn = BaseEdge.calc_jacobians(e)
@@ -391,7 +442,27 @@ def search_convergence(seed, n):
         # well-posed: the anchor (first vertex, fixed by fix_first_pose) must be a pose, not a landmark point
         i0 = next(i for i, v in enumerate(desc["vertices"]) if v["cls"].startswith("PoseSE"))
         desc["vertices"][0], desc["vertices"][i0] = desc["vertices"][i0], desc["vertices"][0]
+        # revisited place (30%): a new pose vertex j a few centimetres from a non-anchor pose i, measured from i by one extra
+        # odometry edge, whose initial guess is i's pose *object* (Vertex keeps the caller's object; legal, and harmless as
+        # long as the update step never writes into a pose)
+        shared = None
+        if rng.random() < 0.3:
+            cand = [v for v in desc["vertices"][1:] if v["cls"].startswith("PoseSE")]
+            if cand:
+                vi = rng.choice(cand)
+                cls = vi["cls"]
+                zv = [rng.gauss(0, 0.03) for _ in range(2)] + [rng.gauss(0, 0.01)] if cls == "PoseSE2" else list(np.asarray(G.mk_pose(cls, [0, 0, 0, 0, 0, 0, 1]) + np.array([rng.gauss(0, 0.03) for _ in range(3)] + [rng.gauss(0, 0.01) for _ in range(3)])))
+                jid = max(v["id"] for v in desc["vertices"]) + 1
+                desc["vertices"].append(dict(id=jid, cls=cls, vals=list(vi["vals"]), fixed=False))
+                c = 3 if cls == "PoseSE2" else 6
+                desc["edges"].append(dict(kind="odometry", vids=[vi["id"], jid], est_cls=cls, est=[float(x) for x in zv], info=(np.eye(c) * rng.logu(1, 50)).tolist()))
+                shared = (vi["id"], jid)
         g = G.rebuild(desc)
+        if shared:
+            byid = {v.id: v for v in g._vertices}
+            byid[shared[1]].pose = byid[shared[0]].pose
+            desc["shared_pose_object"] = list(shared)
+            stats["shared_pose_object"] = stats.get("shared_pose_object", 0) + 1
         tol = 10 ** rng.uniform(-10, -4)
         chi0 = float(g.calc_chi2())
         r = quiet_optimize(g, tol=tol, max_iter=100, fix_first_pose=True)
